@@ -222,6 +222,9 @@ func runSchedCase(c *ctx, tc schedCase) {
 }
 
 func atNameOf(s *sut, tok string) string {
+	if tok == "" {
+		return ""
+	}
 	s.idp.mu.Lock()
 	defer s.idp.mu.Unlock()
 	if k, ok := s.idp.accessIdx[tok]; ok {
